@@ -140,7 +140,7 @@ func prototypes(s *svcSpec, r *Rng) [][][]byte {
 	case "ftp":
 		// logged-in sessions issuing path and transfer commands (the grammar of C04 avoids them)
 		login := [][]byte{[]byte("USER anonymous\r\n"), []byte("PASS anonymous\r\n")}
-		cmds := []string{"CWD /", "CWD ..", "CWD a", "CDUP", "PWD", "MKD d1", "RMD d1", "DELE f", "RNFR a", "RNTO b", "PASV", "EPSV", "LIST", "NLST", "RETR f", "STOR f", "APPE f", "SIZE f", "MDTM f", "STAT /", "TYPE I", "PORT 10,1,0,10,4,1", "EPRT |1|10.1.0.10|1025|", "REST 5", "AUTH TLS", "PBSZ 0", "PROT P", "FEAT", "SYST", "NOOP", "QUIT", "ALLO 1", "MODE S", "STRU F", "OPTS UTF8 ON", "ABOR", "SITE x", "XCWD a", "XPWD", "XMKD q", "XRMD q", "MLSD", "MLST f", "CONF"}
+		cmds := []string{"CWD /", "CWD ..", "CWD a", "CDUP", "PWD", "MKD d1", "RMD d1", "DELE f", "RNFR a", "RNTO b", "PASV", "EPSV", "LIST", "NLST", "RETR f", "RETR d1", "REST -10", "STOR f", "APPE f", "SIZE f", "MDTM f", "STAT /", "TYPE I", "PORT 10,1,0,10,4,1", "EPRT |1|10.1.0.10|1025|", "REST 5", "AUTH TLS", "PBSZ 0", "PROT P", "FEAT", "SYST", "NOOP", "QUIT", "ALLO 1", "MODE S", "STRU F", "OPTS UTF8 ON", "ABOR", "SITE x", "XCWD a", "XPWD", "XMKD q", "XRMD q", "MLSD", "MLST f", "CONF"}
 		for _, pv := range []string{"PASV", "EPSV"} {
 			// passive mode requested, a transfer command issued, the data port never connected to
 			d := append([][]byte{}, login...)
@@ -158,7 +158,9 @@ func prototypes(s *svcSpec, r *Rng) [][][]byte {
 		// the scenario builder turns it into a connect to the port of the last 227 reply) or accepts the active
 		// connection (the engine's sink address) and then neither sends nor reads nor closes
 		xfer := func() []byte {
-			return []byte(r.Pick([]string{"STOR f", "RETR f", "LIST", "NLST", "APPE f", "MLSD"}) + "\r\n")
+			// (RETR starts at REST bytes before the END of the file - without a negative REST it sends nothing; RETR of a
+			// directory fails while reading)
+			return []byte(r.Pick([]string{"STOR f", "RETR f", "REST -10\r\nRETR f", "RETR d1", "LIST", "NLST", "APPE f", "MLSD"}) + "\r\n")
 		}
 		// a long burst of commands written ahead in one segment, the session ending right behind it
 		out = append(out, [][]byte{[]byte("USER anonymous\r\nPASS anonymous\r\n" + strings.Repeat(r.Pick([]string{"NOOP", "PWD", "SYST", "STAT /"})+"\r\n", r.Range(17, 120)) + "QUIT\r\n")})
